@@ -168,20 +168,30 @@ theorem widths_getD (chans : List (Chan α)) (k : Nat) (c : Chan α) (h : chans[
     (widths chans).getD k 0 = c.width := by
   simp [widths, List.getD_eq_getElem?_getD, List.getElem?_map, h]
 
+@[simp] theorem wlens_length (chans : List (Chan α)) : (wlens chans).length = chans.length := by
+  simp [wlens]
+
+theorem wlens_getD (chans : List (Chan α)) (k : Nat) (c : Chan α) (h : chans[k]? = some c) :
+    (wlens chans).getD k 0 = c.wlen := by
+  simp [wlens, List.getD_eq_getElem?_getD, List.getElem?_map, h]
+
 end Pieces
 
 /-! ### channel-wise learning -/
 section Learn
 variable {α : Type} [Add α] [Mul α] [Zero α] [One α]
 
-/-- the module's weight vector has the width of its channel
-(FuzzyART, ART2A; **not** Hypersphere / Ellipsoid / ART1 / Gaussian / Bayesian / QuadraticNeuron) -/
+/-- the module's weight vectors have the constant length `wlen` (true of every artlib module:
+FuzzyART / ART2A `d`, HypersphereART `d+1`, EllipsoidART `2d+1`, ART1 `2d`, …) -/
 def Chan.LenOK (c : Chan α) : Prop :=
-  (∀ x w : List α, x.length = c.width → w.length = c.width → (c.K.update x w).length = c.width) ∧
-  (∀ x : List α, x.length = c.width → (c.K.newW x).length = c.width)
+  (∀ x w : List α, x.length = c.width → w.length = c.wlen → (c.K.update x w).length = c.wlen) ∧
+  (∀ x : List α, x.length = c.width → (c.K.newW x).length = c.wlen)
 
-/-- `dim_` of the FusionART -/
+/-- `dim_` of the FusionART: the width of a data row -/
 def total (chans : List (Chan α)) : Nat := (widths chans).sum
+
+/-- the length of a fused weight -/
+def wtotal (chans : List (Chan α)) : Nat := (wlens chans).sum
 
 theorem slice_len_chan {chans : List (Chan α)} {v : List α} (hv : v.length = total chans)
     {k : Nat} {c : Chan α} (hc : chans[k]? = some c) :
@@ -189,64 +199,70 @@ theorem slice_len_chan {chans : List (Chan α)} {v : List α} (hv : v.length = t
   have hk : k < chans.length := (List.getElem?_eq_some_iff.mp hc).1
   rw [slice_length (by unfold total at hv; omega) k (by simpa using hk), widths_getD chans k c hc]
 
+theorem slice_len_wchan {chans : List (Chan α)} {v : List α} (hv : v.length = wtotal chans)
+    {k : Nat} {c : Chan α} (hc : chans[k]? = some c) :
+    (slice (wlens chans) k v).length = c.wlen := by
+  have hk : k < chans.length := (List.getElem?_eq_some_iff.mp hc).1
+  rw [slice_length (by unfold wtotal at hv; omega) k (by simpa using hk), wlens_getD chans k c hc]
+
 theorem updatePieces_fit (chans : List (Chan α)) (hl : ∀ c ∈ chans, c.LenOK) (x w : List α)
-    (hx : x.length = total chans) (hw : w.length = total chans) :
-    Fit (widths chans) (updatePieces chans x w) := by
+    (hx : x.length = total chans) (hw : w.length = wtotal chans) :
+    Fit (wlens chans) (updatePieces chans x w) := by
   apply fit_of_getD
   · simp [updatePieces]
   · intro k hk
     have hk' : k < chans.length := by simpa using hk
     have hc : chans[k]? = some chans[k] := List.getElem?_eq_getElem hk'
-    rw [updatePieces, zipIdx_map_getD, hc, widths_getD chans k _ hc]
+    rw [updatePieces, zipIdx_map_getD, hc, wlens_getD chans k _ hc]
     simp only [Option.map_some, Option.getD_some]
-    exact (hl _ (List.getElem_mem hk')).1 _ _ (slice_len_chan hx hc) (slice_len_chan hw hc)
+    exact (hl _ (List.getElem_mem hk')).1 _ _ (slice_len_chan hx hc) (slice_len_wchan hw hc)
 
 theorem newPieces_fit (chans : List (Chan α)) (hl : ∀ c ∈ chans, c.LenOK) (x : List α)
-    (hx : x.length = total chans) : Fit (widths chans) (newPieces chans x) := by
+    (hx : x.length = total chans) : Fit (wlens chans) (newPieces chans x) := by
   apply fit_of_getD
   · simp [newPieces]
   · intro k hk
     have hk' : k < chans.length := by simpa using hk
     have hc : chans[k]? = some chans[k] := List.getElem?_eq_getElem hk'
-    rw [newPieces, zipIdx_map_getD, hc, widths_getD chans k _ hc]
+    rw [newPieces, zipIdx_map_getD, hc, wlens_getD chans k _ hc]
     simp only [Option.map_some, Option.getD_some]
     exact (hl _ (List.getElem_mem hk')).2 _ (slice_len_chan hx hc)
 
 theorem fusion_update_eq (chans : List (Chan α)) (hl : ∀ c ∈ chans, c.LenOK) (x w : List α)
-    (hx : x.length = total chans) (hw : w.length = total chans) :
+    (hx : x.length = total chans) (hw : w.length = wtotal chans) :
     (fusionKernel chans).update x w = (updatePieces chans x w).flatten := by
-  show stored (widths chans) (rawUpdate chans x w) = _
+  show stored (wlens chans) (rawUpdate chans x w) = _
   exact stored_of_le (by rw [rawUpdate, (updatePieces_fit chans hl x w hx hw).flatten_length])
 
 theorem fusion_new_eq (chans : List (Chan α)) (hl : ∀ c ∈ chans, c.LenOK) (x : List α)
     (hx : x.length = total chans) :
     (fusionKernel chans).newW x = (newPieces chans x).flatten := by
-  show stored (widths chans) (rawNew chans x) = _
+  show stored (wlens chans) (rawNew chans x) = _
   exact stored_of_le (by rw [rawNew, (newPieces_fit chans hl x hx).flatten_length])
 
 theorem fusion_update_length (chans : List (Chan α)) (hl : ∀ c ∈ chans, c.LenOK) (x w : List α)
-    (hx : x.length = total chans) (hw : w.length = total chans) :
-    ((fusionKernel chans).update x w).length = total chans := by
+    (hx : x.length = total chans) (hw : w.length = wtotal chans) :
+    ((fusionKernel chans).update x w).length = wtotal chans := by
   rw [fusion_update_eq chans hl x w hx hw, (updatePieces_fit chans hl x w hx hw).flatten_length]; rfl
 
 theorem fusion_new_length (chans : List (Chan α)) (hl : ∀ c ∈ chans, c.LenOK) (x : List α)
-    (hx : x.length = total chans) : ((fusionKernel chans).newW x).length = total chans := by
+    (hx : x.length = total chans) : ((fusionKernel chans).newW x).length = wtotal chans := by
   rw [fusion_new_eq chans hl x hx, (newPieces_fit chans hl x hx).flatten_length]; rfl
 
 /-- **Learning is channel-wise**: channel `k` of the updated fused weight is module
 `k`'s own rule applied to the `k`-slices of sample and weight. -/
 theorem fusion_update_slice (chans : List (Chan α)) (hl : ∀ c ∈ chans, c.LenOK) (x w : List α)
-    (hx : x.length = total chans) (hw : w.length = total chans) (k : Nat) (c : Chan α)
+    (hx : x.length = total chans) (hw : w.length = wtotal chans) (k : Nat) (c : Chan α)
     (hc : chans[k]? = some c) :
-    slice (widths chans) k ((fusionKernel chans).update x w) =
-      c.K.update (slice (widths chans) k x) (slice (widths chans) k w) := by
+    slice (wlens chans) k ((fusionKernel chans).update x w) =
+      c.K.update (slice (widths chans) k x) (slice (wlens chans) k w) := by
   rw [fusion_update_eq chans hl x w hx hw, slice_flatten (updatePieces_fit chans hl x w hx hw),
     updatePieces, zipIdx_map_getD, hc]
   rfl
 
 theorem fusion_new_slice (chans : List (Chan α)) (hl : ∀ c ∈ chans, c.LenOK) (x : List α)
     (hx : x.length = total chans) (k : Nat) (c : Chan α) (hc : chans[k]? = some c) :
-    slice (widths chans) k ((fusionKernel chans).newW x) = c.K.newW (slice (widths chans) k x) := by
+    slice (wlens chans) k ((fusionKernel chans).newW x) = c.K.newW (slice (widths chans) k x) := by
   rw [fusion_new_eq chans hl x hx, slice_flatten (newPieces_fit chans hl x hx),
     newPieces, zipIdx_map_getD, hc]
   rfl
@@ -254,10 +270,10 @@ theorem fusion_new_slice (chans : List (Chan α)) (hl : ∀ c ∈ chans, c.LenOK
 /-- the fold of the fused rule, seen through channel `k`, is the fold of module `k`'s rule -/
 theorem fold_update_slice (chans : List (Chan α)) (hl : ∀ c ∈ chans, c.LenOK) (k : Nat) (c : Chan α)
     (hc : chans[k]? = some c) (ms : List (List α)) (hms : ∀ m ∈ ms, m.length = total chans)
-    (w : List α) (hw : w.length = total chans) :
-    slice (widths chans) k (ms.foldl (fun w x => (fusionKernel chans).update x w) w) =
-      (ms.map (slice (widths chans) k)).foldl (fun w x => c.K.update x w) (slice (widths chans) k w) ∧
-    (ms.foldl (fun w x => (fusionKernel chans).update x w) w).length = total chans := by
+    (w : List α) (hw : w.length = wtotal chans) :
+    slice (wlens chans) k (ms.foldl (fun w x => (fusionKernel chans).update x w) w) =
+      (ms.map (slice (widths chans) k)).foldl (fun w x => c.K.update x w) (slice (wlens chans) k w) ∧
+    (ms.foldl (fun w x => (fusionKernel chans).update x w) w).length = wtotal chans := by
   induction ms generalizing w with
   | nil => exact ⟨rfl, hw⟩
   | cons m ms ih =>
@@ -270,7 +286,7 @@ theorem fold_update_slice (chans : List (Chan α)) (hl : ∀ c ∈ chans, c.LenO
 
 theorem foldMembers_slice (chans : List (Chan α)) (hl : ∀ c ∈ chans, c.LenOK) (k : Nat) (c : Chan α)
     (hc : chans[k]? = some c) (ms : List (List α)) (hms : ∀ m ∈ ms, m.length = total chans) :
-    (foldMembers (fusionKernel chans) ms).map (slice (widths chans) k) =
+    (foldMembers (fusionKernel chans) ms).map (slice (wlens chans) k) =
       foldMembers c.K (ms.map (slice (widths chans) k)) := by
   cases ms with
   | nil => rfl
@@ -351,10 +367,10 @@ variable {α : Type} [Add α] [Mul α] [Zero α] [One α]
 
 /-- the module states `modules[0..n-1]` as projections of the fused state -/
 def chanStates (chans : List (Chan α)) (s : ArtState (List α)) : List (ModState α) :=
-  (List.range chans.length).map (fun k => chanState (widths chans) k s)
+  (List.range chans.length).map (fun k => chanState (wlens chans) k s)
 
 theorem fusedW_chanStates (chans : List (Chan α)) (hne : chans ≠ []) (s : ArtState (List α))
-    (hs : ∀ w ∈ s.W, w.length ≤ total chans) : fusedW (chanStates chans s) = s.W := by
+    (hs : ∀ w ∈ s.W, w.length ≤ wtotal chans) : fusedW (chanStates chans s) = s.W := by
   obtain ⟨c0, cs, rfl⟩ := List.exists_cons_of_ne_nil hne
   have hhead : ((chanStates (c0 :: cs) s).head?.map (·.W.length)).getD 0 = s.W.length := by
     simp [chanStates, List.range_succ_eq_map, chanState]
@@ -366,8 +382,8 @@ theorem fusedW_chanStates (chans : List (Chan α)) (hne : chans ≠ []) (s : Art
   · rw [List.getElem?_map, List.getElem?_range hi, List.getElem?_eq_getElem hi]
     simp only [Option.map_some, Option.some.injEq]
     have h1 : (chanStates (c0 :: cs) s).map (fun m => m.W.getD i []) =
-        (List.range (widths (c0 :: cs)).length).map (fun k => slice (widths (c0 :: cs)) k s.W[i]) := by
-      simp only [chanStates, List.map_map, widths_length]
+        (List.range (wlens (c0 :: cs)).length).map (fun k => slice (wlens (c0 :: cs)) k s.W[i]) := by
+      simp only [chanStates, List.map_map, wlens_length]
       apply List.map_congr_left
       intro k _
       simp [chanState, List.getD_eq_getElem?_getD, List.getElem?_map, List.getElem?_eq_getElem hi]
@@ -539,15 +555,15 @@ theorem osum_single (t : Option α) : osum [t.map (· * (1 : α))] = t := by
   cases t <;> simp [osum, oadd]
 
 theorem single_choice (c : Chan α) (hγ : c.gamma = 1) (W : List (List α)) (x w : List α)
-    (hW : ∀ v ∈ W, v.length = c.width) (hx : x.length = c.width) (hw : w ∈ W) :
+    (hW : ∀ v ∈ W, v.length = c.wlen) (hx : x.length = c.width) (hw : w ∈ W) :
     (fusionKernel [c]).choice W x w = c.K.choice W x w := by
-  have hWm : W.map (slice (widths [c]) 0) = W := by
+  have hWm : W.map (slice (wlens [c]) 0) = W := by
     conv_rhs => rw [← List.map_id W]
     apply List.map_congr_left
     intro v hv
-    simpa [widths] using slice_single c.width v (hW v hv)
+    simpa [wlens] using slice_single c.wlen v (hW v hv)
   have hxs : slice (widths [c]) 0 x = x := by simpa [widths] using slice_single c.width x hx
-  have hws : slice (widths [c]) 0 w = w := by simpa [widths] using slice_single c.width w (hW w hw)
+  have hws : slice (wlens [c]) 0 w = w := by simpa [wlens] using slice_single c.wlen w (hW w hw)
   show choiceSkip [c] noSkip W x w = _
   simp only [choiceSkip, chanTerms, List.zipIdx_cons, List.zipIdx_nil, List.map_cons,
     List.map_nil, chanTerm, noSkip, Bool.false_eq_true, if_false, hWm, hxs, hws, hγ, Nat.zero_add]
@@ -555,7 +571,7 @@ theorem single_choice (c : Chan α) (hγ : c.gamma = 1) (W : List (List α)) (x 
 
 theorem single_sim (c : Chan α) (hγ : c.gamma = 1) (hl : c.LenOK) (mode : MT) (adjP adjM : α → α) (top : α) :
     KernelSim (fusionKernel [c]) c.K (fusionCfg mode adjP adjM top) (scalarCfg mode false adjP adjM top)
-      (fun x => x) (fun w => w) (fun x => x.length = c.width) (fun w => w.length = c.width)
+      (fun x => x) (fun w => w) (fun x => x.length = c.width) (fun w => w.length = c.wlen)
       (fun th₁ th₂ => th₁ = [th₂]) where
   keep := rfl
   tilde := rfl
@@ -567,21 +583,22 @@ theorem single_sim (c : Chan α) (hγ : c.gamma = 1) (hl : c.LenOK) (mode : MT) 
     intro th₁ th₂ x w hR hx hw
     subst hR
     have hxs : slice (widths [c]) 0 x = x := by simpa [widths] using slice_single c.width x hx
-    have hws : slice (widths [c]) 0 w = w := by simpa [widths] using slice_single c.width w hw
+    have hws : slice (wlens [c]) 0 w = w := by simpa [wlens] using slice_single c.wlen w hw
     simp [fusionCfg, scalarCfg, fusionKernel, matchVec, hxs, hws]
   track := by
     intro th₁ th₂ x w hR hx hw
     subst hR
     have hxs : slice (widths [c]) 0 x = x := by simpa [widths] using slice_single c.width x hx
-    have hws : slice (widths [c]) 0 w = w := by simpa [widths] using slice_single c.width w hw
+    have hws : slice (wlens [c]) 0 w = w := by simpa [wlens] using slice_single c.wlen w hw
     simp [fusionCfg, scalarCfg, fusionKernel, matchVec, hxs, hws]
   update := by
     intro x w hx hw
     have hl' : ∀ c' ∈ [c], c'.LenOK := by simpa using hl
     have ht : total [c] = c.width := by simp [total, widths]
+    have hwt : wtotal [c] = c.wlen := by simp [wtotal, wlens]
     have hxs : slice (widths [c]) 0 x = x := by simpa [widths] using slice_single c.width x hx
-    have hws : slice (widths [c]) 0 w = w := by simpa [widths] using slice_single c.width w hw
-    have e := fusion_update_eq [c] hl' x w (by rw [ht, hx]) (by rw [ht, hw])
+    have hws : slice (wlens [c]) 0 w = w := by simpa [wlens] using slice_single c.wlen w hw
+    have e := fusion_update_eq [c] hl' x w (by rw [ht, hx]) (by rw [hwt, hw])
     have e2 : (fusionKernel [c]).update x w = c.K.update x w := by
       rw [e]; simp [updatePieces, hxs, hws]
     exact ⟨e2.symm, by rw [e2]; exact hl.1 x w hx hw⟩
@@ -598,7 +615,7 @@ theorem single_sim (c : Chan α) (hγ : c.gamma = 1) (hl : c.LenOK) (mode : MT) 
 /-- a one-channel FusionART with `gamma = 1` is, state for state, the bare module -/
 theorem single_partialFit (c : Chan α) (hγ : c.gamma = 1) (hl : c.LenOK) (mode : MT)
     (adjP adjM : α → α) (top rho : α) (veto : ArtState (List α) → List α → Nat → Bool)
-    (s : ArtState (List α)) (xs : List (List α)) (hs : ∀ w ∈ s.W, w.length = c.width)
+    (s : ArtState (List α)) (xs : List (List α)) (hs : ∀ w ∈ s.W, w.length = c.wlen)
     (hx : ∀ x ∈ xs, x.length = c.width) :
     partialFit (fusionKernel [c]) (fusionCfg mode adjP adjM top) [rho] veto s xs =
       partialFit c.K (scalarCfg mode false adjP adjM top) rho veto s xs := by
@@ -761,6 +778,9 @@ theorem osum_swapAt (i : Nat) (l : List (Option α)) : osum (swapAt i l) = osum 
 theorem widths_swapAt (i : Nat) (chans : List (Chan α)) : widths (swapAt i chans) = swapAt i (widths chans) :=
   map_swapAt _ i chans
 
+theorem wlens_swapAt (i : Nat) (chans : List (Chan α)) : wlens (swapAt i chans) = swapAt i (wlens chans) :=
+  map_swapAt _ i chans
+
 theorem total_swapAt (i : Nat) (chans : List (Chan α)) : total (swapAt i chans) = total chans := by
   simp [total, widths_swapAt, sum_swapAt]
 
@@ -776,53 +796,56 @@ theorem zipIdx_map_swap {δ : Type} (chans : List (Chan α)) (i : Nat) (hi : i +
   | none => rfl
   | some c => simp [h]
 
-theorem swapCols_flatten (chans : List (Chan α)) (i : Nat) {ps : List (List α)} (h : Fit (widths chans) ps) :
-    swapCols (widths chans) i ps.flatten = (swapAt i ps).flatten := by
+theorem swapCols_flatten (ws : List Nat) (i : Nat) {ps : List (List α)} (h : Fit ws ps) :
+    swapCols ws i ps.flatten = (swapAt i ps).flatten := by
   rw [swapCols, splitBy_flatten h]
 
 variable (chans : List (Chan α)) (i : Nat) (hi : i + 1 < chans.length)
 include hi
 
-theorem chanTerms_swap (W : List (List α)) (x w : List α) (hW : ∀ v ∈ W, v.length = total chans)
-    (hx : x.length = total chans) (hw : w.length = total chans) :
-    chanTerms (swapAt i chans) noSkip (W.map (swapCols (widths chans) i)) (swapCols (widths chans) i x)
-        (swapCols (widths chans) i w) = swapAt i (chanTerms chans noSkip W x w) := by
+theorem chanTerms_swap (W : List (List α)) (x w : List α) (hW : ∀ v ∈ W, v.length = wtotal chans)
+    (hx : x.length = total chans) (hw : w.length = wtotal chans) :
+    chanTerms (swapAt i chans) noSkip (W.map (swapCols (wlens chans) i)) (swapCols (widths chans) i x)
+        (swapCols (wlens chans) i w) = swapAt i (chanTerms chans noSkip W x w) := by
   have hi' : i + 1 < (widths chans).length := by simpa using hi
+  have hi'' : i + 1 < (wlens chans).length := by simpa using hi
   unfold chanTerms
   apply zipIdx_map_swap chans i hi
   intro c k
-  have hWm : (W.map (swapCols (widths chans) i)).map (slice (widths (swapAt i chans)) k) =
-      W.map (slice (widths chans) (swapIdx i k)) := by
+  have hWm : (W.map (swapCols (wlens chans) i)).map (slice (wlens (swapAt i chans)) k) =
+      W.map (slice (wlens chans) (swapIdx i k)) := by
     rw [List.map_map]
     apply List.map_congr_left
     intro v hv
-    simp only [Function.comp, widths_swapAt]
-    exact slice_swap _ i hi' v (by have := hW v hv; unfold total at this; omega) k
+    simp only [Function.comp, wlens_swapAt]
+    exact slice_swap _ i hi'' v (by have := hW v hv; unfold wtotal at this; omega) k
   simp only [chanTerm, noSkip, Bool.false_eq_true, if_false, hWm]
-  rw [widths_swapAt, slice_swap _ i hi' x (by unfold total at hx; omega) k,
-    slice_swap _ i hi' w (by unfold total at hw; omega) k]
+  rw [widths_swapAt, wlens_swapAt, slice_swap _ i hi' x (by unfold total at hx; omega) k,
+    slice_swap _ i hi'' w (by unfold wtotal at hw; omega) k]
 
-theorem matchVec_swap (x w : List α) (hx : x.length = total chans) (hw : w.length = total chans) :
-    matchVec (swapAt i chans) (swapCols (widths chans) i x) (swapCols (widths chans) i w) =
+theorem matchVec_swap (x w : List α) (hx : x.length = total chans) (hw : w.length = wtotal chans) :
+    matchVec (swapAt i chans) (swapCols (widths chans) i x) (swapCols (wlens chans) i w) =
       swapAt i (matchVec chans x w) := by
   have hi' : i + 1 < (widths chans).length := by simpa using hi
+  have hi'' : i + 1 < (wlens chans).length := by simpa using hi
   unfold matchVec
   apply zipIdx_map_swap chans i hi
   intro c k
   simp only []
-  rw [widths_swapAt, slice_swap _ i hi' x (by unfold total at hx; omega) k,
-    slice_swap _ i hi' w (by unfold total at hw; omega) k]
+  rw [widths_swapAt, wlens_swapAt, slice_swap _ i hi' x (by unfold total at hx; omega) k,
+    slice_swap _ i hi'' w (by unfold wtotal at hw; omega) k]
 
-theorem updatePieces_swap (x w : List α) (hx : x.length = total chans) (hw : w.length = total chans) :
-    updatePieces (swapAt i chans) (swapCols (widths chans) i x) (swapCols (widths chans) i w) =
+theorem updatePieces_swap (x w : List α) (hx : x.length = total chans) (hw : w.length = wtotal chans) :
+    updatePieces (swapAt i chans) (swapCols (widths chans) i x) (swapCols (wlens chans) i w) =
       swapAt i (updatePieces chans x w) := by
   have hi' : i + 1 < (widths chans).length := by simpa using hi
+  have hi'' : i + 1 < (wlens chans).length := by simpa using hi
   unfold updatePieces
   apply zipIdx_map_swap chans i hi
   intro c k
   simp only []
-  rw [widths_swapAt, slice_swap _ i hi' x (by unfold total at hx; omega) k,
-    slice_swap _ i hi' w (by unfold total at hw; omega) k]
+  rw [widths_swapAt, wlens_swapAt, slice_swap _ i hi' x (by unfold total at hx; omega) k,
+    slice_swap _ i hi'' w (by unfold wtotal at hw; omega) k]
 
 theorem newPieces_swap (x : List α) (hx : x.length = total chans) :
     newPieces (swapAt i chans) (swapCols (widths chans) i x) = swapAt i (newPieces chans x) := by
@@ -833,11 +856,10 @@ theorem newPieces_swap (x : List α) (hx : x.length = total chans) :
   simp only []
   rw [widths_swapAt, slice_swap _ i hi' x (by unfold total at hx; omega) k]
 
-
 theorem perm_sim (hl : ∀ c ∈ chans, c.LenOK) (mode : MT) (adjP adjM : α → α) (top : α) :
     KernelSim (fusionKernel chans) (fusionKernel (swapAt i chans)) (fusionCfg mode adjP adjM top)
-      (fusionCfg mode adjP adjM top) (swapCols (widths chans) i) (swapCols (widths chans) i)
-      (fun x => x.length = total chans) (fun w => w.length = total chans)
+      (fusionCfg mode adjP adjM top) (swapCols (widths chans) i) (swapCols (wlens chans) i)
+      (fun x => x.length = total chans) (fun w => w.length = wtotal chans)
       (fun th₁ th₂ => th₁.length = chans.length ∧ th₂ = swapAt i th₁) where
   keep := rfl
   tilde := rfl
@@ -866,32 +888,32 @@ theorem perm_sim (hl : ∀ c ∈ chans, c.LenOK) (mode : MT) (adjP adjM : α →
     intro x w hx hw
     have hfit := updatePieces_fit chans hl x w hx hw
     refine ⟨?_, fusion_update_length chans hl x w hx hw⟩
-    rw [fusion_update_eq chans hl x w hx hw, swapCols_flatten chans i hfit]
-    show stored (widths (swapAt i chans)) (rawUpdate (swapAt i chans) _ _) = _
+    rw [fusion_update_eq chans hl x w hx hw, swapCols_flatten (wlens chans) i hfit]
+    show stored (wlens (swapAt i chans)) (rawUpdate (swapAt i chans) _ _) = _
     rw [rawUpdate, updatePieces_swap chans i hi x w hx hw]
     apply stored_of_le
-    rw [widths_swapAt, (fit_swap hfit i).flatten_length]
+    rw [wlens_swapAt, (fit_swap hfit i).flatten_length]
   newW := by
     intro x hx
     have hfit := newPieces_fit chans hl x hx
     refine ⟨?_, fusion_new_length chans hl x hx⟩
-    rw [fusion_new_eq chans hl x hx, swapCols_flatten chans i hfit]
-    show stored (widths (swapAt i chans)) (rawNew (swapAt i chans) _) = _
+    rw [fusion_new_eq chans hl x hx, swapCols_flatten (wlens chans) i hfit]
+    show stored (wlens (swapAt i chans)) (rawNew (swapAt i chans) _) = _
     rw [rawNew, newPieces_swap chans i hi x hx]
     apply stored_of_le
-    rw [widths_swapAt, (fit_swap hfit i).flatten_length]
+    rw [wlens_swapAt, (fit_swap hfit i).flatten_length]
 
 /-- **Permuting two neighbouring channels** (with their gammas, widths, vigilances and
 data columns) gives the same run: same labels and counters, weights permuted likewise. -/
 theorem perm_partialFit (hl : ∀ c ∈ chans, c.LenOK) (mode : MT) (adjP adjM : α → α) (top : α)
     (th : List α) (hth : th.length = chans.length)
     (veto veto' : ArtState (List α) → List α → Nat → Bool)
-    (hv : ∀ s x c, veto' (mapState (swapCols (widths chans) i) s) (swapCols (widths chans) i x) c = veto s x c)
-    (s : ArtState (List α)) (xs : List (List α)) (hs : ∀ w ∈ s.W, w.length = total chans)
+    (hv : ∀ s x c, veto' (mapState (swapCols (wlens chans) i) s) (swapCols (widths chans) i x) c = veto s x c)
+    (s : ArtState (List α)) (xs : List (List α)) (hs : ∀ w ∈ s.W, w.length = wtotal chans)
     (hx : ∀ x ∈ xs, x.length = total chans) :
     partialFit (fusionKernel (swapAt i chans)) (fusionCfg mode adjP adjM top) (swapAt i th) veto'
-        (mapState (swapCols (widths chans) i) s) (xs.map (swapCols (widths chans) i)) =
-      mapState (swapCols (widths chans) i)
+        (mapState (swapCols (wlens chans) i) s) (xs.map (swapCols (widths chans) i)) =
+      mapState (swapCols (wlens chans) i)
         (partialFit (fusionKernel chans) (fusionCfg mode adjP adjM top) th veto s xs) :=
   (perm_sim chans i hi hl mode adjP adjM top).partialFit veto veto' hv th (swapAt i th) ⟨hth, rfl⟩ s xs hs hx
 
@@ -1089,7 +1111,7 @@ variable {α : Type} [Add α] [Mul α] [Zero α] [One α] [LinearOrder α]
 
 theorem channelCentres_getElem? (chans : List (Chan α)) (centre : Nat → List α → List α)
     (W : List (List α)) (k c : Nat) :
-    (channelCentres chans centre W k)[c]? = (W[c]?).map (fun w => centre k (slice (widths chans) k w)) := by
+    (channelCentres chans centre W k)[c]? = (W[c]?).map (fun w => centre k (slice (wlens chans) k w)) := by
   simp [channelCentres]
 
 /-- one target channel: the result is that channel's centre of the category predicted with
@@ -1099,7 +1121,7 @@ theorem predictRegression_single (chans : List (Chan α)) (centre : Nat → List
     (hc : stepPredSkip chans (skipSet chans.length [t]) W x = some c) :
     predictRegression chans centre [t] W x =
       (W[c]?).map (fun w => [centre (normIdx chans.length t).toNat
-        (slice (widths chans) (normIdx chans.length t).toNat w)]) := by
+        (slice (wlens chans) (normIdx chans.length t).toNat w)]) := by
   have hs := skipSet_normIdx chans.length [t] (by simpa using ht)
   simp only [List.map_cons, List.map_nil] at hs
   unfold predictRegression
@@ -1116,7 +1138,7 @@ theorem predictRegression_multi (chans : List (Chan α)) (centre : Nat → List 
     predictRegression chans centre targets W x =
       allSome ((targets.map (normIdx chans.length)).map (fun k =>
         (((targets.map (normIdx chans.length))[k.toNat]?).bind (fun k' =>
-          (W[c]?).map (fun w => centre k'.toNat (slice (widths chans) k'.toNat w)))))) := by
+          (W[c]?).map (fun w => centre k'.toNat (slice (wlens chans) k'.toNat w)))))) := by
   have hs := skipSet_normIdx chans.length targets hnn
   unfold predictRegression
   simp only [hs, hc, List.length_map, hl, if_false]
@@ -1137,7 +1159,7 @@ theorem predictRegression_multi_pos (chans : List (Chan α)) (centre : Nat → L
     (c : Nat) (hc : stepPredSkip chans (skipSet chans.length targets) W x = some c) :
     predictRegression chans centre targets W x =
       (W[c]?).map (fun w => (targets.map (normIdx chans.length)).map
-        (fun k => centre k.toNat (slice (widths chans) k.toNat w))) := by
+        (fun k => centre k.toNat (slice (wlens chans) k.toNat w))) := by
   rw [predictRegression_multi chans centre targets W x hl hnn c hc]
   have hlt : c < W.length := by
     have := argmaxNp_lt_length hc
@@ -1145,8 +1167,8 @@ theorem predictRegression_multi_pos (chans : List (Chan α)) (centre : Nat → L
   rw [List.getElem?_eq_getElem hlt]
   generalize targets.map (normIdx chans.length) = tn at hpos ⊢
   have : tn.map (fun k => ((tn[k.toNat]?).bind (fun k' =>
-        (some W[c]).map (fun w => centre k'.toNat (slice (widths chans) k'.toNat w))))) =
-      (tn.map (fun k => centre k.toNat (slice (widths chans) k.toNat W[c]))).map some := by
+        (some W[c]).map (fun w => centre k'.toNat (slice (wlens chans) k'.toNat w))))) =
+      (tn.map (fun k => centre k.toNat (slice (wlens chans) k.toNat W[c]))).map some := by
     rw [List.map_map]
     apply List.map_congr_left
     intro k hk
